@@ -19,11 +19,18 @@ pub const SLOTS: usize = 4;
 
 pub struct Handles {
     pub slots: Vec<Option<H>>,
+    /// builders kept across steps
+    pub builders: Vec<Option<B>>,
+}
+
+pub enum B {
+    Chmod(rivia::sys::Chmod),
+    Chown(rivia::sys::Chown),
 }
 
 impl Default for Handles {
     fn default() -> Self {
-        Handles { slots: (0..SLOTS).map(|_| None).collect() }
+        Handles { slots: (0..SLOTS).map(|_| None).collect(), builders: vec![None, None] }
     }
 }
 
@@ -31,6 +38,9 @@ impl Handles {
     /// Drop every handle; a destructor that panics (that is some operation's finding, reported
     /// where it is executed explicitly) must not take the harness down with it
     pub fn clear(&mut self) {
+        for b in self.builders.iter_mut() {
+            *b = None;
+        }
         for s in self.slots.iter_mut() {
             if let Some(h) = s.take() {
                 let _ = std::panic::catch_unwind(std::panic::AssertUnwindSafe(move || drop(h)));
@@ -428,6 +438,59 @@ fn exec_inner<V: VirtualFileSystem>(v: &V, hs: &mut Handles, op: &Op) -> Outcome
                 Ok(_) => Outcome::Ok(Val::Bool(moved)),
                 Err(e) => Outcome::Err(err_kind(&e)),
             }
+        },
+        Op::ChmodBKeep { b, p, calls } => {
+            if hs.builders[*b].is_some() {
+                return Outcome::Skip;
+            }
+            let mut x = match v.chmod_b(p) {
+                Ok(x) => x,
+                Err(e) => return Outcome::Err(err_kind(&e)),
+            };
+            for c in calls {
+                x = match c {
+                    ChmodCall::All(m) => x.all(*m),
+                    ChmodCall::Dirs(m) => x.dirs(*m),
+                    ChmodCall::Files(m) => x.files(*m),
+                    ChmodCall::Sym(s) => x.sym(s),
+                    ChmodCall::Follow => x.follow(),
+                    ChmodCall::Recurse => x.recurse(),
+                    ChmodCall::NoRecurse => x.no_recurse(),
+                    ChmodCall::Readonly => x.readonly(),
+                    ChmodCall::Secure => x.secure(),
+                };
+            }
+            hs.builders[*b] = Some(B::Chmod(x));
+            Outcome::Ok(Val::Unit)
+        },
+        Op::ChownBKeep { b, p, calls } => {
+            if hs.builders[*b].is_some() {
+                return Outcome::Skip;
+            }
+            let mut x = match v.chown_b(p) {
+                Ok(x) => x,
+                Err(e) => return Outcome::Err(err_kind(&e)),
+            };
+            for c in calls {
+                x = match c {
+                    ChownCall::Uid(u) => x.uid(*u),
+                    ChownCall::Gid(g) => x.gid(*g),
+                    ChownCall::Owner(u, g) => x.owner(*u, *g),
+                    ChownCall::Follow => x.follow(),
+                    ChownCall::Recurse(y) => x.recurse(*y),
+                };
+            }
+            hs.builders[*b] = Some(B::Chown(x));
+            Outcome::Ok(Val::Unit)
+        },
+        Op::BExec { b } => match &hs.builders[*b] {
+            None => Outcome::Skip,
+            Some(B::Chmod(x)) => r(x.exec(), |_| Val::Unit),
+            Some(B::Chown(x)) => r(x.exec(), |_| Val::Unit),
+        },
+        Op::BDrop { b } => match hs.builders[*b].take() {
+            None => Outcome::Skip,
+            Some(_) => Outcome::Ok(Val::Unit),
         },
         Op::ChmodBDeferred { p, calls, cwd } => {
             let mut b = match v.chmod_b(p) {
